@@ -32,7 +32,7 @@ def demo():
     r = sh(cmd, cwd=work, timeout=1800)
     return r.stdout + r.stderr
 def build_and_test():
-    r = sh("/tmp/seed/run_tests.sh %s" % M, timeout=3600)
+    r = sh("/verif/tools/seed_run_tests.sh %s" % M, timeout=3600)
     return r.stdout.strip().splitlines()[-1] if r.stdout.strip() else "no output " + r.stderr[-300:]
 res = {}
 sh("git -C %s apply %s" % (M, patch))
